@@ -443,5 +443,8 @@ def run(repo: Repo, rep: Report, tier: str) -> None:
 
     default_substitution_rule(repo, rep, "C17.R8")
     walker_rule(repo, rep, "C17.R9")
+    from .c06 import signed_unit_rule
+    from .c08 import meta_call_rule
 
-
+    meta_call_rule(repo, rep, "C17.R10")
+    signed_unit_rule(repo, rep, "C17.R11")
